@@ -37,6 +37,7 @@ Fails(c, s) ==
     [] c.kind = "hist"    -> HistFails(c, s)
     [] c.kind = "connectwide" -> C10WideFails(c)
     [] c.kind = "partial" -> C15Fails(c)
+    [] c.kind = "partialdeep" -> C15DeepFails(c)
     [] c.kind = "minimize" -> C04Fails(c)
     [] c.kind = "arith"   -> ArithFails(c)
     [] c.kind = "synth"   -> C06Fails(c)
